@@ -68,6 +68,17 @@ def sample_onepass(hists, cap, rnd):
     def score(h):
         v = [x.split("|") for x in h]
         if v[0][1] != "ok_onepass":
+            # other collect modes: several queries registered while paused end in the same pass after the resume
+            paused, nq = False, 0
+            for verb, arg, tgt, exp in v[1:]:
+                if verb == "pause":
+                    paused, nq = True, 0
+                elif verb == "query" and paused and exp == "ok":
+                    nq += 1
+                elif verb == "resume":
+                    if paused and nq >= 2:
+                        return 5
+                    paused = False
             return 0
         sc = 1
         seen_resume = seen_pause_after = False
@@ -89,7 +100,7 @@ def sample_onepass(hists, cap, rnd):
     for h in hists:
         groups[score(h)].append(h)
     picked = []
-    for sc, share in ((4, cap // 2), (3, cap // 8), (2, cap // 8), (1, cap // 8), (0, cap // 8)):
+    for sc, share in ((5, cap // 8), (4, cap * 3 // 8), (3, cap // 8), (2, cap // 8), (1, cap // 8), (0, cap // 8)):
         g = groups[sc]
         rnd.shuffle(g)
         picked += g[:share]
